@@ -718,10 +718,14 @@ def simplify(e):
         return e[1][1]
     if e[0] == 'ref' and e[1][0] == 'deref':
         return e[1][1]
-    if e[0] == 'field' and e[1][0] == 'aggr' and (e[1][1] == 'tuple' or e[1][1].startswith('closure:')) and e[2].startswith('#'):
-        i = int(e[2][1:])
-        if i < len(e[1][2]):
-            return e[1][2][i]
+    if e[0] == 'field' and e[2].startswith('#'):
+        base = e[1]
+        while base[0] in ('ref', 'deref'):
+            base = base[1]
+        if base[0] == 'aggr' and (base[1] == 'tuple' or base[1].startswith('closure:')):
+            i = int(e[2][1:])
+            if i < len(base[2]):
+                return base[2][i]
     return e
 
 
